@@ -1298,6 +1298,16 @@ pub trait ClientAccountStorage:
         let (mut folder, vault) =
             self.initialize_folder(records, Internal).await?;
 
+        // Restoring a folder that exists replaces it: drop the
+        // entries of the old content before adding the restored ones
+        if self.find(|s| s.id() == vault.id()).is_some() {
+            #[cfg(feature = "search")]
+            if let Some(index) = self.search_index_mut() {
+                index.remove_folder(vault.id()).await;
+            }
+            self.remove_summary(vault.id(), Internal);
+        }
+
         // Unlock the folder
         folder.unlock(key).await?;
         self.folders_mut().insert(*vault.id(), folder);
